@@ -35,8 +35,8 @@ type Program struct {
 	embedders  map[*types.TypeName][]*types.Named
 	leaveMemo  *[]*Func
 	synthSel   map[*ast.SelectorExpr]*types.Var // selections synthesized by the engine (partAssign) -> the field
-	roleVar    map[roleKey]*types.Var // role -> the field that plays it under another name / on a sub-struct
-	roleName   map[*types.Var]string  // such a field -> the role's (canonical) name
+	roleVar    map[roleKey]*types.Var           // role -> the field that plays it under another name / on a sub-struct
+	roleName   map[*types.Var]string            // such a field -> the role's (canonical) name
 }
 
 // Func is a declared function, method or function literal of a repo package.
